@@ -111,7 +111,11 @@ def match_known(ob, findings):
     for f in findings:
         if f.get("status") != "open":
             continue
-        if f.get("obligation") != ob["id"]:
+        if f.get("obligation_re"):
+            import re
+            if not re.fullmatch(f["obligation_re"], ob["id"]):
+                continue
+        elif f.get("obligation") != ob["id"]:
             continue
         mm = f.get("model_match")
         if mm:
